@@ -63,11 +63,21 @@ def _expand_chunk(args):
                 outcome = "crash:" + type(e).__name__
             expected = system.model_apply(m2, op)
             vs = []
-            vs += system.compare(l2, m2, op, outcome, expected)
-            vs += system.invariant(l2)
+            try:
+                vs += system.compare(l2, m2, op, outcome, expected)
+                vs += system.invariant(l2)
+                dg = digest(system.canon(l2))
+            except Exception as e:
+                # observing the state failed: the object under test is in a condition its own accessors cannot
+                # handle -- that is a finding about the code, not a reason to abort the search
+                import traceback
+
+                vs.append({"subcheck": "state-cannot-be-observed", "key": {"exc": type(e).__name__, "op": str(op.get("op", op))[:40]},
+                           "detail": {"error": repr(e)[:200], "where": traceback.format_exc().strip().splitlines()[-3:]}})
+                dg = digest(("unobservable", tuple(hist), oi))
             for v in vs:
                 v["case"] = dict(getattr(system, "case_extra", {}), history=[system.ops[i] for i in hist] + [op])
-            out.append((digest(system.canon(l2)), outcome, vs))
+            out.append((dg, outcome, vs))
     return out
 
 
@@ -82,7 +92,13 @@ def _verify_chunk(args):
         d = digest(system.canon(live))
         vs = []
         if hasattr(system, "state_check"):
-            vs = system.state_check(live)
+            try:
+                vs = system.state_check(live)
+            except Exception as e:
+                import traceback
+
+                vs = [{"subcheck": "state-check-raises", "key": {"exc": type(e).__name__},
+                       "detail": {"error": repr(e)[:200], "where": traceback.format_exc().strip().splitlines()[-3:]}}]
             for v in vs:
                 v["case"] = dict(getattr(system, "case_extra", {}), history=[system.ops[i] for i in h])
         out.append((d, vs))
@@ -134,7 +150,7 @@ def bfs(ctx, system, depth, op_indices=None, state_cap=4_000_000, chunk=64,
         if not frontier:
             break
         chunks = [frontier[i:i + chunk] for i in range(0, len(frontier), chunk)]
-        results = ctx.pmap(_expand_chunk, [(c, op_indices) for c in chunks])
+        results = ctx.pmap(_expand_chunk, [(c, op_indices) for c in chunks], safe=False)
         new_frontier = []
         fi = 0
         for c, r in zip(chunks, results):
@@ -155,7 +171,7 @@ def bfs(ctx, system, depth, op_indices=None, state_cap=4_000_000, chunk=64,
                 fi += 1
         if (hasattr(system, "save") or hasattr(system, "state_check")) and new_frontier:
             vchunks = [new_frontier[i:i + verify_chunk] for i in range(0, len(new_frontier), verify_chunk)]
-            vres = ctx.pmap(_verify_chunk, vchunks)
+            vres = ctx.pmap(_verify_chunk, vchunks, safe=False)
             for vc, vr in zip(vchunks, vres):
                 for h, (d, vs) in zip(vc, vr):
                     if seen.get(d) != h:
